@@ -312,7 +312,7 @@ class Gen:
         if op == "*" and self.chance(0.35):
             # small literal multiplier (the compiler rewrites these to repeated addition); the other
             # operand is sometimes a block with an effect, which must happen exactly once
-            small = Lit(ty, self.rng.randint(0, ty.bits - 1))
+            small = Lit(ty, self.rng.randint(-1 if ty.signed else 0, ty.bits - 1))  # (-1: the negated form of the rewrite)
             other = r
             muts = [v for v in self.vars_of(lambda t, m: m and isinstance(t, TInt)) if v[0] not in self.no_assign]
             if muts and self.chance(0.5):
